@@ -392,6 +392,14 @@ def gen_config(rng, prop, tier):
            'ignore': None, 'tol': None, 'deep': False, 'wide': wide,
            'bigres': label in ('dir-z', 'dir-fast', 'dir-mmap', 'dir-pkl', 'file-pkl', 'sql-file') and not wide
            and rng.chance(0.12)}
+    if prop == 'C16' and module == 'safe' and rng.chance(0.25):
+        # un-encodable arguments combined with rounding / ignore: the fallback evaluation must still receive
+        # the arguments exactly as passed
+        if fn in ('f2', 'f6', 'f7', 'f9') and rng.chance(0.4):
+            cfg['ignore'] = rng.choice(['y', ['y'], ['x']])
+        else:
+            cfg['tol'] = rng.choice([0, 1])
+            cfg['deep'] = rng.chance(0.5)
     if prop == 'C18' and rng.chance(0.35) and not (km['kind'] == 'pickle' and km['arg'] == 'json') \
        and not (label in ('file-src', 'dir-src') and km['kind'] == 'raw'):
         if fn in ('f2', 'f6', 'f7') and rng.chance(0.5):
@@ -621,8 +629,10 @@ def generate(rng, prop, tier):
                 recent.append(c)
             ops.append(op)
         elif kind == 'bad':
-            ops.append({'op': 'call', 'a': [rng.choice(BAD_ARGS)] + ([1] if fn == 'f9' else []), 'kw': [],
-                        'bad': True})
+            extra = [1] if fn == 'f9' else []
+            if fn in ('f2', 'f6', 'f7', 'f3') and rng.chance(0.4):
+                extra = [rng.choice([2.6, 0.75, 3])]      # a second argument that rounding or ignore would alter
+            ops.append({'op': 'call', 'a': [rng.choice(BAD_ARGS)] + extra, 'kw': [], 'bad': True})
         elif kind in ('load_k', 'dump_k'):
             cs = [rng.choice(hot) for _ in range(rng.randint(1, 2))]
             ops.append({'op': kind, 'calls': [spell(rng, fn, c) for c in cs]})
@@ -1010,6 +1020,10 @@ class Oracle(object):
             if bad and tag == 'ok':
                 if nev != 1:
                     raise Mismatch('safe-evaluations', 'safe call %s evaluated %d times' % (show_op(op), nev))
+                exp = w.rfn(*args, **kw)
+                if val != exp:
+                    raise Mismatch('safe-fallback-wrong-result', 'safe call %s with an un-encodable argument returned %r; '
+                                   'evaluating the call as made gives %r' % (show_op(op), val, exp))
                 self.bump('safe-fallback')
         # ---- C18: key()/lookup() coherence with what the call stored
         if prop == 'C18' and tag == 'ok' and hashable and not bad:
